@@ -1,9 +1,12 @@
 package main
 
 import (
+	"bytes"
 	"errors"
 	"fmt"
 	"math/rand"
+	"os"
+	"path/filepath"
 	"strconv"
 	"strings"
 	"sync"
@@ -375,8 +378,202 @@ func runC11(cfg Config) {
 			monitor(fmt.Sprintf("%d requests failed or ran on a closed store while swapping", bad), "swap.concurrent")
 		}
 	}
+	// swap histories on a writable wrapper: after Swap(new) every request — reads and writes alike — goes to the new
+	// store, nothing reaches the store that Swap closed, and what was written can be read back through the wrapper
+	for it := 0; it < cfg.N(60, 1000); it++ {
+		stores := []*closableWriteStore{newClosableWriteStore(0)}
+		sw := desync.NewSwapWriteStore(stores[0])
+		active := 0
+		var hist []string
+		for k := 0; k < 3+rng.Intn(12); k++ {
+			switch rng.Intn(4) {
+			case 0:
+				stores = append(stores, newClosableWriteStore(len(stores)))
+				sw.Swap(stores[len(stores)-1])
+				active = len(stores) - 1
+				hist = append(hist, "swap")
+			case 1, 2:
+				ch := desync.NewChunk(randBytes(rng, 20+rng.Intn(40)))
+				err := sw.StoreChunk(ch)
+				hist = append(hist, "store")
+				caseLine := fmt.Sprintf("swap.history it=%d ops=%s", it, strings.Join(hist, ","))
+				has, herr := sw.HasChunk(ch.ID())
+				_, gerr := sw.GetChunk(ch.ID())
+				switch {
+				case err != nil:
+					monitor("StoreChunk through a SwapWriteStore failed: "+err.Error(), caseLine)
+				case !stores[active].has(ch.ID()):
+					monitor(fmt.Sprintf("a chunk stored after a swap did not reach the active store (store %d of %d)", active, len(stores)), caseLine)
+				case herr != nil || !has || gerr != nil:
+					monitor("a chunk stored through a SwapWriteStore cannot be read back through it", caseLine)
+				}
+			default:
+				_, _ = sw.HasChunk(chainID(1))
+				hist = append(hist, "has")
+			}
+			for i, st := range stores {
+				if st.usedAfterClose() {
+					monitor(fmt.Sprintf("a request reached store %d after Swap had closed it", i), fmt.Sprintf("swap.history it=%d ops=%s", it, strings.Join(hist, ",")))
+				}
+			}
+		}
+		rep.Count(fmt.Sprintf("swap.history it=%d ops=%s", it, strings.Join(hist, ",")), true, "swap-history")
+	}
+
+	// cache repair on disk: Cache(Router(upstream), RepairableCache(LocalStore)) — what the command line builds for
+	// `-s upstream -c dir --cache-repair`.  A cached object damaged in place (same length: one flipped byte; or cut;
+	// or emptied) is replaced from upstream on the next GetChunk: the caller gets the right data, the object on disk
+	// is valid afterwards, and a later GetChunk is served from the cache with upstream down
+	for it := 0; it < cfg.N(24, 300); it++ {
+		unc := it%2 == 1
+		dir := filepath.Join(cfg.Work, fmt.Sprintf("cache-%d", it))
+		os.MkdirAll(dir, 0755)
+		local, err := desync.NewLocalStore(dir, desync.StoreOptions{Uncompressed: unc})
+		if err != nil {
+			continue
+		}
+		data := randBytes(rng, 100+rng.Intn(3000))
+		ch := desync.NewChunk(data)
+		id := ch.ID()
+		up := &countingStore{chunks: map[desync.ChunkID][]byte{id: data}}
+		cache := desync.NewCache(desync.NewStoreRouter(up), desync.NewRepairableCache(local))
+		caseLine := fmt.Sprintf("cache.repair.disk it=%d uncompressed=%v damage=%d", it, unc, it%3)
+		rep.Count(caseLine, true, "cache-repair-disk")
+		if _, err := cache.GetChunk(id); err != nil {
+			monitor("the first GetChunk through the cache failed: "+err.Error(), caseLine)
+			continue
+		}
+		ext := ".cacnk"
+		if unc {
+			ext = ""
+		}
+		obj := filepath.Join(dir, id.String()[:4], id.String()+ext)
+		b, err := os.ReadFile(obj)
+		if err != nil || len(b) == 0 {
+			monitor("the cache did not fill itself on a miss", caseLine)
+			continue
+		}
+		switch it % 3 {
+		case 0:
+			b[rng.Intn(len(b))] ^= 0x20 // same length
+		case 1:
+			b = b[:len(b)/2]
+		default:
+			b = nil
+		}
+		os.WriteFile(obj, b, 0644)
+		calls := up.calls
+		got, err := cache.GetChunk(id)
+		if err != nil {
+			monitor("GetChunk with a damaged cached object and a healthy upstream failed: "+err.Error(), caseLine)
+			continue
+		}
+		if gd, _ := got.Data(); !bytes.Equal(gd, data) {
+			monitor("GetChunk with a damaged cached object returned wrong data", caseLine)
+		}
+		if up.calls != calls+1 {
+			monitor(fmt.Sprintf("repairing a cached object took %d upstream requests, not 1", up.calls-calls), caseLine)
+		}
+		if c2, err := local.GetChunk(id); err != nil {
+			monitor("the damaged cached object was not replaced: the cache still holds an invalid object ("+err.Error()+")", caseLine)
+		} else if d2, _ := c2.Data(); !bytes.Equal(d2, data) {
+			monitor("the repaired cached object holds wrong data", caseLine)
+		}
+		up.down = true
+		if _, err := cache.GetChunk(id); err != nil {
+			monitor("after a repair the chunk is not served from the cache (upstream down): "+err.Error(), caseLine)
+		}
+		os.RemoveAll(dir)
+	}
 	rep.Write(cfg.Out)
 }
+
+// countingStore: an upstream with a call counter that can go down
+type countingStore struct {
+	mu     sync.Mutex
+	chunks map[desync.ChunkID][]byte
+	calls  int
+	down   bool
+}
+
+func (s *countingStore) GetChunk(id desync.ChunkID) (*desync.Chunk, error) {
+	s.mu.Lock()
+	defer s.mu.Unlock()
+	s.calls++
+	if s.down {
+		return nil, errors.New("upstream is down")
+	}
+	b, ok := s.chunks[id]
+	if !ok {
+		return nil, desync.ChunkMissing{ID: id}
+	}
+	return desync.NewChunkWithID(id, b, false)
+}
+func (s *countingStore) HasChunk(id desync.ChunkID) (bool, error) {
+	s.mu.Lock()
+	defer s.mu.Unlock()
+	_, ok := s.chunks[id]
+	return ok, nil
+}
+func (s *countingStore) Close() error   { return nil }
+func (s *countingStore) String() string { return "counting" }
+
+// closableWriteStore: a write store that records use after Close
+type closableWriteStore struct {
+	mu     sync.Mutex
+	n      int
+	closed bool
+	late   bool
+	chunks map[desync.ChunkID]bool
+}
+
+func newClosableWriteStore(n int) *closableWriteStore {
+	return &closableWriteStore{n: n, chunks: map[desync.ChunkID]bool{}}
+}
+func (s *closableWriteStore) touch() {
+	if s.closed {
+		s.late = true
+	}
+}
+func (s *closableWriteStore) GetChunk(id desync.ChunkID) (*desync.Chunk, error) {
+	s.mu.Lock()
+	defer s.mu.Unlock()
+	s.touch()
+	if !s.chunks[id] {
+		return nil, desync.ChunkMissing{ID: id}
+	}
+	return desync.NewChunkWithID(id, []byte("x"), true)
+}
+func (s *closableWriteStore) HasChunk(id desync.ChunkID) (bool, error) {
+	s.mu.Lock()
+	defer s.mu.Unlock()
+	s.touch()
+	return s.chunks[id], nil
+}
+func (s *closableWriteStore) StoreChunk(c *desync.Chunk) error {
+	s.mu.Lock()
+	defer s.mu.Unlock()
+	s.touch()
+	s.chunks[c.ID()] = true
+	return nil
+}
+func (s *closableWriteStore) has(id desync.ChunkID) bool {
+	s.mu.Lock()
+	defer s.mu.Unlock()
+	return s.chunks[id]
+}
+func (s *closableWriteStore) usedAfterClose() bool {
+	s.mu.Lock()
+	defer s.mu.Unlock()
+	return s.late
+}
+func (s *closableWriteStore) Close() error {
+	s.mu.Lock()
+	s.closed = true
+	s.mu.Unlock()
+	return nil
+}
+func (s *closableWriteStore) String() string { return fmt.Sprintf("closable-%d", s.n) }
 
 // closableStore fails once closed; a request that observes the close mid-flight fails too
 type closableStore struct {
